@@ -44,6 +44,20 @@ def pick (trusted : List Str) (dflt : Str) : List Str → Str
 def cHttp : Str := ofAscii "http"
 def cHttps : Str := ofAscii "https"
 
+/-- `ip.partition("%")[2]`: the text after the first `%` (empty when there is none) -/
+def zoneOf (ip : Str) : Str :=
+  match C43.splitFirst 37 ip with
+  | some (_, z) => z
+  | none => []
+
+/-- `netutil.is_valid_ip` as it is after the `fix:` commits (non-ASCII text and a zone id containing ":" are refused
+    before the resolver is asked); `gai ip` = `getaddrinfo(ip, 0, AF_UNSPEC, SOCK_STREAM, 0, AI_NUMERICHOST)` returned
+    a non-empty list (`EAI_NONAME` and `UnicodeError` are `false`) -/
+def isValidIp (gai : Str → Bool) (ip : Str) : Bool :=
+  if ip.isEmpty || ip.contains 0 || !C43.isAscii ip then false
+  else if (zoneOf ip).contains 58 then false
+  else gai ip
+
 /-- `_apply_xheaders` -/
 def applyX (valid : Str → Bool) (c : Ctx) (h : Headers) : Ctx :=
   let ip0 := (hget h "X-Forwarded-For").getD c.remoteIp
@@ -67,6 +81,8 @@ inductive Ev where
   | headers (lines : List Str)    -- `_ProxyAdapter.headers_received`
   | finish                        -- `_ProxyAdapter.finish`
   | close                         -- `_ProxyAdapter.on_connection_close`
+  | finishRaises                  -- `_ProxyAdapter.finish` whose `delegate.finish()` raises: `_cleanup()` is skipped (the
+                                  -- connection is then closed by `_server_request_loop`: the last event of a real trace)
   deriving Repr, BEq, DecidableEq
 
 inductive Obs where
@@ -82,6 +98,7 @@ def step (valid : Str → Bool) (c : Ctx) : Ev → Ctx × Obs
     | .ok h => let c' := applyX valid c h; (c', .request c'.remoteIp c'.protocol)
   | .finish => (unapplyX c, .none)
   | .close => (unapplyX c, .none)
+  | .finishRaises => (c, .none)
 
 def run (valid : Str → Bool) (c : Ctx) : List Ev → Ctx × List Obs
   | [] => (c, [])
@@ -94,5 +111,45 @@ def serve (valid : Str → Bool) (c : Ctx) (reqs : List (List Str)) : Ctx × Lis
 /-- what a request with header block `lines` observes on a *fresh* connection -/
 def observe (valid : Str → Bool) (sockIp proto : Str) (trusted : List Str) (lines : List Str) : Obs :=
   (step valid (Ctx.init sockIp proto trusted) (.headers lines)).2
+
+/-! ### one connection as `HTTP1ServerConnection._server_request_loop` drives the adapter -/
+
+/-- how the application and the peer end a request -/
+inductive Outcome where
+  | keep      -- `finish()`, and the connection is kept alive
+  | last      -- `finish()`, and the connection is not kept alive (HTTP/1.0 without keep-alive, `Connection: close`)
+  | raises    -- `delegate.finish()` raises: no restore; `except _QuietException: conn.close(); return`
+  | abort     -- the peer goes away inside the body: `on_connection_close`
+  deriving Repr, BEq, DecidableEq
+
+/-- the adapter events of one connection: the loop stops reading requests after a header block that does not parse
+    (`HTTPInputError` → 400, close; the adapter is not called), after a request that is not kept alive, after a delegate
+    that raised, and when the peer has left -/
+def connEvents : List (List Str × Outcome) → List Ev
+  | [] => []
+  | (r, o) :: rest =>
+    match parseBlock r with
+    | .error _ => [.headers r]
+    | .ok _ =>
+      match o with
+      | .keep => .headers r :: .finish :: connEvents rest
+      | .last => [.headers r, .finish]
+      | .raises => [.headers r, .finishRaises]
+      | .abort => [.headers r, .close]
+
+/-- the requests that reach the application on that connection -/
+def servedReqs : List (List Str × Outcome) → List (List Str)
+  | [] => []
+  | (r, o) :: rest =>
+    match parseBlock r with
+    | .error _ => []
+    | .ok _ =>
+      match o with
+      | .keep => r :: servedReqs rest
+      | _ => [r]
+
+def Obs.isRequest : Obs → Bool
+  | .request _ _ => true
+  | _ => false
 
 end TornadoModel.C32
